@@ -341,7 +341,32 @@ def _install_split_pre():
     ap.AlignmentCollector.split_coverage_regions = staticmethod(split)
 
 
-PRE = {"schedule": _install_schedule_pre, "ids": _install_ids_pre, "canon": _install_canon_pre,
+# ----------------------------------------------------------------------------- BAM merge order (C12)
+
+def _install_merge_pre():
+    import src.alignment_processor as ap
+    real = ap.BAMOnlineMerger.get
+
+    def get(self):
+        last = None
+        ties = 0
+        n = 0
+        per_file = {}
+        for i, a in real(self):
+            key = (a.reference_start, a.reference_end)
+            if last is not None and key == last[0] and i != last[1]:
+                ties += 1
+            last = (key, i)
+            n += 1
+            per_file[i] = per_file.get(i, 0) + 1
+            yield i, a
+        if len(self.bam_pairs) > 1 or n:
+            emit("merge", chr=self.chr_id, records=n, files=len(self.bam_pairs), cross_file_ties=ties,
+                 per_file={str(k): v for k, v in per_file.items()})
+    ap.BAMOnlineMerger.get = get
+
+
+PRE = {"merge": _install_merge_pre, "schedule": _install_schedule_pre, "ids": _install_ids_pre, "canon": _install_canon_pre,
        "counter": _install_counter_pre, "resolve": _install_resolve_pre, "state": _install_state_pre,
        "split": _install_split_pre}
 POST = {"crash": _install_crash, "cache": _install_cache}
